@@ -167,7 +167,8 @@ def _apply(u, st, other):
     if op == "truediv":
         return u / U(st["v"])
     if op == "joinpath":
-        return u.joinpath(*[U(v) for v in st["vs"]], encoded=st.get("encoded", False))
+        objs = {}           # equal texts are ONE object, as in `d = "dir/"; u.joinpath(d, d)`
+        return u.joinpath(*[objs.setdefault(tuple(v), U(v)) for v in st["vs"]], encoded=st.get("encoded", False))
     if op == "join":
         return u.join(other)
     if op == "call":                    # C19: any public method with typed arguments (documented and wrong types)
@@ -202,6 +203,24 @@ def _same(a, b):
         return False
 
 
+def _reuse_after_caller_mutation(u, st, argobj):
+    """The CALLER may mutate its own container between two calls: when the argument is a mapping / multidict with list values,
+    the same object is first passed in an earlier state (every list one element short), then brought to its final state IN
+    PLACE -- the observed call that follows must depend on what the object holds now, not on anything remembered about it."""
+    if st["q"]["form"] not in ("mapping", "multidict") or not hasattr(argobj, "items"):
+        return
+    lists = [v for _, v in argobj.items() if isinstance(v, list) and v]
+    if not lists:
+        return
+    last = [v.pop() for v in lists]
+    try:
+        (u % argobj) if st["op"] == "mod" else getattr(u, st["op"])(argobj)
+    except Exception:  # noqa: BLE001 - the earlier call is only history
+        pass
+    for v, x in zip(lists, last):
+        v.append(x)
+
+
 def run_prog(prog, fields=None, extras=()):
     """Execute a program; yields one record per step.  Stops at the first step that raises."""
     u = None
@@ -224,6 +243,7 @@ def run_prog(prog, fields=None, extras=()):
         if st["op"] in ("with_query", "extend_query", "update_query", "mod") and st["q"]["form"] not in ("none", "str"):
             a_, kw_ = qarg_py(st["q"])
             argobj = a_[0] if a_ else kw_
+            _reuse_after_caller_mutation(u, st, argobj)
             before = copy.deepcopy(argobj)
         try:
             if argobj is not None:
